@@ -117,6 +117,17 @@ def header_text(h):
             tok = tok[:len(tok) - (len(tok) % 4) + 1] if len(tok) % 4 != 1 else tok   # length = 1 mod 4: never decodable
         elif m == 'empty':
             tok = ''
+        elif isinstance(m, str) and m.startswith('stray'):
+            # valid base64 whose decoded bytes are the user and password with bytes spliced in that are no valid UTF-8
+            # (stray:<where>:<hex>  where = u<k> | p<k>: position k of the user / password bytes)
+            _, where, hx = m.split(':')
+            ub, pb = h['user'].encode('utf-8'), h['password'].encode('utf-8')
+            k = int(where[1:])
+            if where[0] == 'u':
+                ub = ub[:k] + bytes.fromhex(hx) + ub[k:]
+            else:
+                pb = pb[:k] + bytes.fromhex(hx) + pb[k:]
+            tok = base64.b64encode(ub + b':' + pb).decode('ascii')
         elif m == 'nospace':
             return h.get('token', 'Basic') + tok
         return h.get('token', 'Basic') + ' ' + tok
@@ -168,8 +179,8 @@ def expected(case):
     known = user in table
     if h['scheme'] == 'basic':
         m = h.get('mangle')
-        if m in ('nocolon', 'empty', 'nospace'):
-            return 'refuse'
+        if m in ('nocolon', 'empty', 'nospace') or (isinstance(m, str) and m.startswith('stray')):
+            return 'refuse'       # (stray bytes: these are not the bytes of any user name / password of the table)
         creds = known and table[user] == pw
         if case['idiom'] != 'basic':
             # a Basic header sent to a Digest-protected resource (check_auth hashes it with the default encrypt)
@@ -1141,6 +1152,11 @@ def auth_corpus():
                 out.append(A(D(password='wrong', algorithm=alg, qop=qop, nonce='prior-%s-%d-%s' % (via, k, qop)), via=via, prior_first=True))
                 out.append(A(D(password='admin', algorithm=alg, qop=qop, nonce='prior-ok-%s-%d-%s' % (via, k, qop)), via=via, prior_first=True))
         out.append(A(B('admin', 'wrong'), 'basic', via=via, prior_first=True))
+        # the right credentials with bytes spliced in that are no valid UTF-8 (they are not the credentials any more)
+        for where in ('p0', 'p3', 'p5', 'u0', 'u3', 'u5'):
+            for hx in ('ff', 'c0', '80', 'e282'):
+                out.append(A(B(mangle='stray:%s:%s' % (where, hx)), 'basic', via=via))
+                out.append(A(B(mangle='stray:%s:%s' % (where, hx)), 'basic', via=via, encrypt='default'))
         # cross scheme
         out.append(A(D(), 'basic', via=via))
         out.append(A(D('admin', 'wrong'), 'basic', via=via))
@@ -1332,7 +1348,8 @@ def gen_auth(rng):
     if scheme == 'basic':
         h = B(user, pw, token=rng.choice(['Basic', 'Basic', 'basic', 'BASIC']))
         if rng.random() < 0.2:
-            h['mangle'] = rng.choice(['badb64', 'nocolon', 'nospace', 'empty', 'latin1'])
+            h['mangle'] = rng.choice(['badb64', 'nocolon', 'nospace', 'empty', 'latin1'] +
+                                     ['stray:%s%d:%s' % (rng.choice('up'), rng.randint(0, 6), rng.choice(['ff', 'fe', 'c0', '80', 'e282', 'f09f98', 'c3']))] * 3)
         case['hdr'] = h
         return case
     uri = request_uri(case)
